@@ -7,6 +7,7 @@ import (
 	"fmt"
 	"go/token"
 	"go/types"
+	"sort"
 	"strings"
 
 	"golang.org/x/tools/go/ssa"
@@ -504,14 +505,19 @@ func checkMergedOnAllPaths(r *rtCtx, merge *ssa.Function, typ, what string) {
 	}
 	// the first `parsed != nil` test
 	var test *ssa.If
+	nonNilSucc := 0
 	for _, b := range r.fn.Blocks {
 		if !r.entity.Blocks[b] {
 			continue
 		}
 		if iff, ok := b.Instrs[len(b.Instrs)-1].(*ssa.If); ok {
-			if bo, ok := iff.Cond.(*ssa.BinOp); ok && bo.X == parsed && isNilConst(bo.Y) && bo.Op == token.NEQ {
+			if bo, ok := iff.Cond.(*ssa.BinOp); ok && bo.X == parsed && isNilConst(bo.Y) && (bo.Op == token.NEQ || bo.Op == token.EQL) {
 				if test == nil || b.Dominates(test.Block()) {
 					test = iff
+					nonNilSucc = 0
+					if bo.Op == token.EQL {
+						nonNilSucc = 1 // `x == nil` : the non-nil edge is the false successor
+					}
 				}
 			}
 		}
@@ -522,7 +528,7 @@ func checkMergedOnAllPaths(r *rtCtx, merge *ssa.Function, typ, what string) {
 	}
 	ok := true
 	detail := ""
-	n := pathsWithin(test.Block().Succs[0], r.entity, func(path []*ssa.BasicBlock, back bool) {
+	n := pathsWithin(test.Block().Succs[nonNilSucc], r.entity, func(path []*ssa.BasicBlock, back bool) {
 		merged := false
 		idNil := false
 		for i, b := range path {
@@ -713,25 +719,39 @@ func runLinkRules(c *Ctx) {
 			c.Check(ok, "LINK", r.fname, "association tables "+mapName(m1)+" / "+mapName(m2)+" updated together", p.pos(fn.Pos()), "every update of one is paired, in the same block, with the swapped update of the other", "the two directions of the trip<->vehicle association are not recorded together")
 		}
 	}
-	// L4: whenever both a trip and a vehicle were parsed from one entity an association is recorded
-	var both *ssa.BasicBlock
+	// L4: whenever both a trip and a vehicle were parsed from one entity an association is recorded: every region of the
+	// entity loop in which both are known non-nil records one on all its paths
+	var boths []*ssa.BasicBlock
 	for b := range r.entity.Blocks {
-		conds := dominatingConds(b)
-		nn := 0
-		for _, ce := range conds {
-			if bo, ok := ce.Cond.(*ssa.BinOp); ok && isNilConst(bo.Y) && bo.Op == token.NEQ && ce.Val {
+		nn := map[ssa.Value]bool{}
+		for _, ce := range dominatingConds(b) {
+			if bo, ok := ce.Cond.(*ssa.BinOp); ok && isNilConst(bo.Y) && ((bo.Op == token.NEQ && ce.Val) || (bo.Op == token.EQL && !ce.Val)) {
 				if phi, ok := bo.X.(*ssa.Phi); ok && (typeName(phi.Type()) == "gtfs.Trip" || typeName(phi.Type()) == "gtfs.Vehicle") {
-					nn++
+					nn[phi] = true
 				}
 			}
 		}
-		if nn >= 2 && (both == nil || b.Dominates(both)) {
-			both = b
+		if len(nn) >= 2 {
+			boths = append(boths, b)
 		}
 	}
-	if both == nil {
+	var tops []*ssa.BasicBlock
+	for _, b := range boths {
+		top := true
+		for _, o := range boths {
+			if o != b && o.Dominates(b) {
+				top = false
+			}
+		}
+		if top {
+			tops = append(tops, b)
+		}
+	}
+	sort.Slice(tops, func(i, j int) bool { return tops[i].Index < tops[j].Index })
+	if len(tops) == 0 {
 		c.Violated("LINK", r.fname, "association recorded when both are present", p.pos(fn.Pos()), "no region guarded by trip != nil && vehicle != nil in the entity loop")
-	} else {
+	}
+	for k, both := range tops {
 		ok := true
 		n := pathsWithin(both, r.entity, func(path []*ssa.BasicBlock, back bool) {
 			rec := false
@@ -748,7 +768,11 @@ func runLinkRules(c *Ctx) {
 				ok = false
 			}
 		})
-		c.Check(ok && n > 0, "LINK", r.fname, "association recorded when both are present", p.pos(both.Instrs[0].Pos()), fmt.Sprintf("all %d paths through the trip != nil && vehicle != nil region record the pair in an association table", n), "an entity that carries both a trip and a vehicle can pass without its association being recorded")
+		key := "association recorded when both are present"
+		if k > 0 {
+			key += fmt.Sprintf(" (region %d)", k+1)
+		}
+		c.Check(ok && n > 0, "LINK", r.fname, key, p.pos(both.Instrs[0].Pos()), fmt.Sprintf("all %d paths through the trip != nil && vehicle != nil region record the pair in an association table", n), "an entity that carries both a trip and a vehicle can pass without its association being recorded")
 	}
 	// every association table is consumed by a resolution loop that stores the corresponding link
 	for _, m := range tables {
